@@ -52,6 +52,8 @@ class Reporter:
         self.n[key] = self.n.get(key, 0) + 1
         if self.n[key] <= MAX_REPORTS_PER_KEY:
             ck.violation(key, what, replay)
+        elif hasattr(ck, "uncounted"):
+            ck.uncounted[key] = ck.uncounted.get(key, 0) + 1      # worker process: merged by the parent
         else:
             ck.violations.append((key, what, None))
 
@@ -814,7 +816,7 @@ class Proxy:
         self.samples = []
         self.notes = []
         self.violations = []
-        self.more = 0
+        self.uncounted = {}
         self.known = {}
         self.extra = {}
         self.replayed = 0
@@ -840,15 +842,12 @@ class Proxy:
             c = self.known.setdefault(key, [0, what])
             c[0] += 1
             return False
-        if len(self.violations) < 12:
-            self.violations.append((key, what, replay))
-        else:
-            self.more += 1
+        self.violations.append((key, what, replay))
         return True
 
     def dump(self):
         return {"evaluations": self.evaluations, "nontrivial": self.nontrivial, "samples": self.samples, "notes": self.notes,
-                "violations": self.violations, "more": self.more, "known": self.known, "extra": self.extra,
+                "violations": self.violations, "uncounted": self.uncounted, "known": self.known, "extra": self.extra,
                 "replayed": self.replayed}
 
 
@@ -865,8 +864,8 @@ def merge(ck, d):
         ck.known_hits[key] = ck.known_hits.get(key, 0) + cnt - 1
     for (key, what, replay) in d["violations"]:
         ck.violation(key, what, replay)
-    for _ in range(d["more"]):
-        ck.violations.append(("(more)", "further violations not listed", None))
+    for key, cnt in d["uncounted"].items():
+        ck.violations.extend([(key, "(further cases of the same kind)", None)] * cnt)
     for k, v in d["extra"].items():
         ck.extra[k] = v
 
@@ -1072,6 +1071,12 @@ def run(ck):
     pool.shutdown()
     procs.shutdown()
     _t("traces validated")
+    if ck.violations:
+        by = {}
+        for (key, _w, _p) in ck.violations:
+            by[key] = by.get(key, 0) + 1
+        ck.extra["violations_by_key"] = by
+        print("  violations by key: " + ", ".join("%s x%d" % kv for kv in sorted(by.items())))
     if lzw_t:
         t = lzw_t[0]
         ck.sample({"part": "LZWTrace", "origin": t["origin"], "codes": len(t["ev"]), "first_events": t["ev"][:4],
